@@ -121,10 +121,36 @@ def run_threads(case):
     old = sys.getswitchinterval()
     sys.setswitchinterval(1e-6)
     bad = []
+    # cold-start rounds: a FRESH model per round (compile cache cleared), all threads released together, and - forced overlap - every
+    # thread is held at the entry of Grammar.optimized() until the others are inside too (the check-then-act window of the cached
+    # optimized copy); the warm `model` above only supplies the expected results
+    from tatsu.peg import base as _base
+    from .impl import clear_caches
+    orig_opt = _base.Grammar.optimized
+    gate = {'b': None}
+
+    def held_optimized(self):
+        b = gate['b']
+        if b is not None:
+            try:
+                b.wait(timeout=0.3)
+            except threading.BrokenBarrierError:
+                pass
+        return orig_opt(self)
+    warm = model
     try:
         for rnd in range(case.get('rounds', 6)):
             results = {}
             barrier = threading.Barrier(case['threads'])
+            if rnd % 2 == 1:
+                clear_caches()
+                model = tatsu.compile(grammar, **case.get('compile_kw', {}))      # noqa: PLW2901  (cold model, used by parse())
+                gate['b'] = threading.Barrier(case['threads'])
+                _base.Grammar.optimized = held_optimized
+            else:
+                model = warm
+                gate['b'] = None
+                _base.Grammar.optimized = orig_opt
 
             def work(k):
                 barrier.wait()
@@ -141,6 +167,7 @@ def run_threads(case):
                     bad.append({'thread': k, 'input': t, 'expected': want[t], 'observed': r, 'round': rnd})
     finally:
         sys.setswitchinterval(old)
+        _base.Grammar.optimized = orig_opt
     return bad
 
 
